@@ -8,3 +8,8 @@ import JominiModel.Props.C04
 #print axioms Jomini.Props.C04.C04_readers_agree
 #print axioms Jomini.Props.C04.C04_tape_eq_ondemand_partial
 #print axioms Jomini.Props.C04.C04_eq_spec_partial
+#print axioms Jomini.BinDe.C04_tape_end_to_end_partial
+#print axioms Jomini.BinDe.C04_tape_end_to_end
+#print axioms Jomini.BinDe.C04_eq_spec_tape
+#print axioms Jomini.BinDe.C04_paths_end_to_end_partial
+#print axioms Jomini.BinDe.C04_end_to_end_halves
